@@ -253,6 +253,17 @@ ADDENDA5B = {
     "C07": "In the (num, num) arm of every other element function `//`, divmod and `/` between two unlifted operands are reported; vyxalify(a / b) needs a lifted operand.",
     "C15": "int(a / b) with both operands Python ints (rebound from int(...)) is a float quotient; an index computed as a difference and guarded only from above wraps around when negative.",
 }
+# rules added in the sixth round (optimisation-style changes)
+ADDENDA6 = {
+    "C03": "Every switch parameter of tokenise is a lexer mode of its own: its literal forms, block comments included, are discovered by probing and held to the payload law. The lexer has no memory (every probe alone in a fresh copy of the module gives what it gave in the shared one) and lexes left to right (a finished token does not depend on the text after it).",
+    "C08": "A test that only compares the kinds of two operands with each other names no kind and is no scalar guard for a shortcut before the dispatch.",
+    "C09": "helpers.pop and helpers.wrapify are interpreted as transition systems on every small stack, every count from 0 and both values of the two flags: exactly the top count entries go, the prefix below stays.",
+    "C11": "The explicit read's template is interpreted on the abstract states of the model (program scope value, that cursor only, flag left down); the scope-push rule instantiates every parameter shape of lambdas and named functions.",
+    "C14": "A look-up of the list in itself at bound-k inside __getitem__ needs a path condition that makes bound at least k (position -1 is the forcing arm).",
+    "C20": "A key is reachable in every program of a process: the lexer has no memory (same law as C03).",
+}
+for _k, _v in ADDENDA6.items():
+    ADDENDA5B[_k] = (ADDENDA5B.get(_k, "") + " " + _v).strip()
 for _k, _v in ADDENDA5B.items():
     ADDENDA5[_k] = (ADDENDA5.get(_k, "") + " " + _v).strip()
 for _k, _v in ADDENDA5.items():
